@@ -11,6 +11,8 @@ package c32_test
 
 import (
 	"fmt"
+	"os"
+	"sync/atomic"
 	"testing"
 
 	"google.golang.org/grpc/codes"
@@ -183,6 +185,28 @@ func classify(r *e2elife.PickRig) (bool, []string) {
 	return nt, out
 }
 
+// Shares of the two "publish that does not look like news" classes, per
+// process; checked after the run (see classFloors).
+var nCases, nSameState, nSameObject atomic.Int64
+
+// classFloors: the non-trivial rule asks for same_state_publish_with_queued_rpc
+// in >= 20 % and same_picker_object_republished_with_queued_rpc in >= 10 % of
+// the cases (measured over whole runs in notes). One shard is too
+// small to test those shares exactly; a shard that stays below half of them
+// means the generator is broken and makes the run INCONCLUSIVE.
+func classFloors(t *testing.T) {
+	n := nCases.Load()
+	if os.Getenv("VERIF_REPLAY") != "" || n < 40 {
+		return
+	}
+	if s := nSameState.Load(); 10*s < n {
+		t.Errorf("VERIF-HARNESS generator health: same_state_publish_with_queued_rpc in %d of %d cases (< 10 %)", s, n)
+	}
+	if s := nSameObject.Load(); 20*s < n {
+		t.Errorf("VERIF-HARNESS generator health: same_picker_object_republished_with_queued_rpc in %d of %d cases (< 5 %)", s, n)
+	}
+}
+
 func run(t *testing.T, p e2elife.PickPlan) vk.Result {
 	var res vk.Result
 	msg := vk.Bubble(t, func(t *testing.T) {
@@ -192,6 +216,15 @@ func run(t *testing.T, p e2elife.PickPlan) vk.Result {
 			return
 		}
 		nt, cl := classify(r)
+		nCases.Add(1)
+		for _, c := range cl {
+			switch c {
+			case "same_state_publish_with_queued_rpc":
+				nSameState.Add(1)
+			case "same_picker_object_republished_with_queued_rpc":
+				nSameObject.Add(1)
+			}
+		}
 		res = vk.Result{NonTrivial: nt, Classes: cl, Steps: r.Steps}
 		if v != "" {
 			res.Violation = v
@@ -206,8 +239,9 @@ func run(t *testing.T, p e2elife.PickPlan) vk.Result {
 func TestVerifC32Picker(t *testing.T) {
 	vk.Check(t, vk.Unit[e2elife.PickPlan]{
 		ID: "C32", Name: "picker",
-		Rule: "custom LB policy publishing generation-stamped pickers on plan command; per-RPC pick scripts over {plain error, ErrNoSubConnAvailable, status error, never-ready SubConn, SubConn of backend j (READY or not, depending on down/up/kill ops)}; 1-2 backends with one real server each; ops = start RPC (fail-fast / wait-for-ready), publish, finish handler, cancel, backend down/up, connection kill; a third of the ops race with the next one. non-trivial = an RPC queued by >= 2 pick answers (i.e. blocked across >= 2 picker generations)",
+		Rule: "custom LB policy publishing generation-stamped pickers on plan command; per-RPC pick scripts over {plain error, ErrNoSubConnAvailable, status error, never-ready SubConn, SubConn of backend j (READY or not, depending on down/up/kill ops)}; 1-2 backends with one real server each; ops = start RPC (fail-fast / wait-for-ready), publish, finish handler, cancel, backend down/up, connection kill; a third of the ops race with the next one. publish = UpdateState(state, picker) where the state is a free choice among IDLE/CONNECTING/READY/TRANSIENT_FAILURE independent of the picker's answers (45% repeat the previous state, so runs of equal states; the channel itself starts CONNECTING) and 30% hand over the SAME stateful picker object as the previous publish (generation = publish, not object; a quiescence point precedes such a publish); 20% of the plans start RPCs before the first publish. non-trivial = an RPC queued by >= 2 pick answers (i.e. blocked across >= 2 picker generations); in addition class same_state_publish_with_queued_rpc (a publish reporting the same state as the previous one re-evaluated an RPC queued by the previous generation and did not queue it again) must hold in >= 20% and same_picker_object_republished_with_queued_rpc (a publish of the same picker object re-evaluated a queued RPC) in >= 10% of the cases",
 		Gen:  func(rt *rapid.T) e2elife.PickPlan { return e2elife.GenPickPlan(rt, "gen", vk.Pick(16, 60)) },
 		Run:  run,
 	})
+	classFloors(t)
 }
